@@ -78,7 +78,7 @@ def string_selftest(seed, rounds=60):
     I.depth = 1
     interp.CURRENT[0] = I
     checked = 0
-    alphabet = "ab-./:% \nAZ09é"
+    alphabet = "ab-./:% \n\rAZ09é"
     ops = [
         ("find", lambda s, a, b: s.find(a)), ("rfind", lambda s, a, b: s.rfind(a)), ("count", lambda s, a, b: s.count(a[:1] or "a")),
         ("startswith", lambda s, a, b: s.startswith(a)), ("endswith", lambda s, a, b: s.endswith(a)),
@@ -88,6 +88,7 @@ def string_selftest(seed, rounds=60):
         ("replace", lambda s, a, b: s.replace("-", "")), ("replace%%", lambda s, a, b: s.replace("%%", "")), ("contains", lambda s, a, b: a in s),
         ("eq", lambda s, a, b: s == a), ("lt", lambda s, a, b: s < a), ("len", lambda s, a, b: len(s)), ("concat", lambda s, a, b: s + a + "x"),
         ("format", lambda s, a, b: "%s-%s.%d" % (s, a, b)), ("join", lambda s, a, b: ",".join([s, a, "z"])),
+        ("splitlines", lambda s, a, b: s.splitlines()), ("nlines", lambda s, a, b: len((s + a).splitlines())),
     ]
     import ast as _ast
     src = {
@@ -95,6 +96,7 @@ def string_selftest(seed, rounds=60):
         "split": "s.split(a[:1] or '-')", "rsplit2": "s.rsplit(a[:1] or '-', 2)", "split1": "s.split(a[:1] or '-', 1)", "strip": "s.strip()",
         "rstrip": "s.rstrip('/')", "lstrip": "s.lstrip('/ ')", "slice": "s[b % 3:-(b % 4) or None]", "neg-slice": "s[:-(1 + b % 5)]", "lower": "s.lower()",
         "replace": "s.replace('-', '')", "replace%%": "s.replace('%%', '')", "contains": "a in s", "eq": "s == a", "lt": "s < a", "len": "len(s)",
+        "splitlines": "s.splitlines()", "nlines": "len((s + a).splitlines())",
         "concat": "s + a + 'x'", "format": "'%s-%s.%d' % (s, a, b)", "join": "','.join([s, a, 'z'])",
     }
     failures = []
